@@ -97,7 +97,11 @@ def explain(op, what, g_src, g_doc):
             out.add("C15-exotic-space")
         if "irregular-token" in g_src and what == "tokens":
             out.add("C15-lexer-context-dependent-token")
+        if "assign-op-in-token" in g_src and what == "tokens":
+            out.add("C15-align-assign-op-in-token")
     elif op == "idem":
+        if "assign-op-in-token" in both:
+            out.add("C15-align-assign-op-in-token")
         if "wrapped" in both:
             out.add("C15-wrap-not-idempotent")
         if "open-ended-error-token" in both:
@@ -142,7 +146,10 @@ def classify(cases, guards, open_findings, seed, tier, found_by):
             if l.startswith("# irregular "):
                 # set by the harness: a token whose label depends on its right context (lexer quirk)
                 guards.setdefault((c.n, {"source": 0, "lsp-formatted": 1, "web-formatted": 2}[l.split()[2]]), set()).add("irregular-token")
+        request = ""
         for l in c.lines:
+            if l.startswith(("range ", "ontype ", "full", "web")):
+                request = l
             if l.startswith("cfg "):
                 cfg = l
             elif l.startswith("# doc "):
@@ -168,7 +175,8 @@ def classify(cases, guards, open_findings, seed, tier, found_by):
                         "what": f"{o['op']} formatting: {o['what']} — {o['detail']}",
                         "case": c.n, "seed": seed, "tier": tier, "config": cfg,
                         "source": texts.get("source", ""), "document": texts.get(o["doc"], ""),
-                        "operation": o["op"], "guards_violated": sorted(g_src | g_doc),
+                        "operation": o["op"], "failure": o["what"], "request": request,
+                        "guards_violated": sorted(g_src | g_doc),
                         "not_a_known_finding": "no guard of an open finding is violated",
                         "found_by": found_by, "shrunk": "shrunk" in c.tags,
                         "replay_cmd": "./check.py C15 --replay <this file>",
@@ -179,14 +187,33 @@ def classify(cases, guards, open_findings, seed, tier, found_by):
     return failures, known_hits, guard_hist, n_oracle, n_fail, witnessed
 
 
-def neighbourhood(ctx, open_findings):
-    """Model and implementation disagree: look for a failing input OF THE PROPERTY near the disagreeing cases.
+def requests_of(request):
+    """`range a b c d` / `ontype l c` op line -> the `requests` object of a neighbour-file entry."""
+    w = request.split()
+    if len(w) == 5 and w[0] == "range":
+        return {"ranges": [[int(x) for x in w[1:]]], "ontype": []}
+    if len(w) == 3 and w[0] == "ontype":
+        return {"ranges": [], "ontype": [[int(x) for x in w[1:]]]}
+    return {"ranges": [], "ontype": []}
+
+
+def neighbourhood(ctx, open_findings, failing=()):
+    """`failing`: oracle failures of generated cases that no open finding explains - the first three distinct cases
+    are run again with the request that failed and shrunk line by line while the same failure persists (the shrunk
+    text is judged by the oracle and classified like every other case).
+    Model and implementation disagree: look for a failing input OF THE PROPERTY near the disagreeing cases.
     The harness splices the constructs that text-based helpers trip over (strings / comments containing `//`,
     `:=`, `=>`, `:`; commented-out code; lines that wrap; runs of blank lines) into each disagreeing source, varies
     the line limit, runs full / range / on-type / second formatting through the real server, judges every variant
     with the property oracle and shrinks the first failing variants line by line."""
     tier, seed = ctx["tier"], ctx["seed"]
     seeds, seen = [], set()
+    for f in failing:
+        if (f["config"], f["source"]) not in seen and len(seeds) < 3 and f["failure"] != "panic":
+            seen.add((f["config"], f["source"]))
+            seeds.append({"cfg": f["config"], "source": f["source"], "want": [f["operation"], f["failure"]],
+                          "requests": requests_of(f["request"])})
+    nwant = len(seeds)
     for d in ctx["result"]["disagreements"]:
         cfg = src = None
         for l in d.get("case_lines", []):
@@ -197,7 +224,7 @@ def neighbourhood(ctx, open_findings):
         if cfg and src is not None and (cfg, src) not in seen:
             seen.add((cfg, src))
             seeds.append({"cfg": cfg, "source": src})
-        if len(seeds) >= 6:
+        if len(seeds) >= 6 + nwant:
             break
     if not seeds:
         return [], {}
@@ -233,8 +260,8 @@ def extra(ctx):
         "known_findings_reproduced_on_their_witness": sorted(witnessed),
         "known_findings_not_reproduced": sorted(set(open_findings) - set(known_hits)),
     }
-    if ctx["result"]["disagreements"] and "only" not in ctx:
-        nf, ncov = neighbourhood(ctx, open_findings)
+    if (ctx["result"]["disagreements"] or failures) and "only" not in ctx:
+        nf, ncov = neighbourhood(ctx, open_findings, failures)
         coverage.update(ncov)
         # failing inputs of the neighbourhood (shrunk ones first) are reported before the generated ones
         failures = nf + failures
@@ -257,7 +284,8 @@ def replay(obj):
             print("harness does not build:", log[-800:])
             return 1
         npath = os.path.join(vlib.WORK, "C15.replay.neighbour.json")
-        json.dump([{"cfg": obj["config"], "source": obj["source"]}], open(npath, "w"))
+        json.dump([{"cfg": obj["config"], "source": obj["source"], "requests": requests_of(obj.get("request", ""))}],
+                  open(npath, "w"))
         out_path = os.path.join(vlib.WORK, "C15.replay.cases.txt")
         rc, log = vlib.run_harness("c15", obj["seed"], 1, out_path, {"neighbour": npath})
         if rc != 0:
